@@ -107,7 +107,16 @@ class Worker:
             self.proc = None
 
     def run(self, job, timeout=JOB_TIMEOUT):
-        """Execute one job. A worker that dies or hangs is reported as a crash of that job."""
+        """Execute one job. A worker that dies or hangs is reported as a crash of that job. A job that exceeds the
+        wall-clock backstop is executed once more in a fresh worker with ten times the backstop before it counts as a
+        hang, so that a loaded machine cannot change a verdict (the backstop is 10^4 times the normal cost of a job)."""
+        result = self.run_once(job, timeout)
+        if result.get("crash") == "timeout":
+            self.timeouts_retried = getattr(self, "timeouts_retried", 0) + 1
+            result = self.run_once(job, timeout * 10)
+        return result
+
+    def run_once(self, job, timeout):
         if self.proc is None or self.proc.poll() is not None:
             self.start()
         self.jobs += 1
